@@ -82,7 +82,7 @@ func runC04(c *Ctx) {
 		for _, env := range envs {
 			env := env
 			res := ssau.AbsWalk(wv, ssau.AbsEnvFunc(func(i *ssa.If, visit int) (bool, bool) {
-				return syms.evalCond(i.Cond, env, visit, i.Block().Comment)
+				return syms.evalCond(i.Cond, env, visit, blockComment(i))
 			}))
 			if res.Ret == nil {
 				okAll, detail = false, "cannot evaluate for "+env.String()
@@ -161,9 +161,11 @@ func runC04(c *Ctx) {
 		gp = c.P.Func("core/types", "", "GetPayload")
 	}
 	if gt != nil {
-		a := switchConsts(gt)
+		// the type switch may live in a helper the factory calls
+		hasSwitch := func(g *ssa.Function) bool { return len(switchConsts(g)) >= 10 }
+		a := switchConsts(c.relocateBy(gt, hasSwitch))
 		if gp != nil {
-			b := switchConsts(gp)
+			b := switchConsts(c.relocateBy(gp, hasSwitch))
 			var missing []int64
 			for k := range a {
 				if !b[k] {
